@@ -1,4 +1,5 @@
 import MidnightZK.Model.C20.Acc
+import MidnightZK.Model.C20.Assign
 /-!
 # Public-input layout and IPA pairing of the light aggregator (executable model)
 
@@ -57,6 +58,31 @@ def aggIpaBases1 (acc : Acc F G) (fixedBases : List (String × G)) : List G :=
 accumulator carries a scalar for EVERY fixed base of the key (same keys, same order). -/
 def aggAligned (acc : Acc F G) (fixedBases : List (String × G)) : Bool :=
   acc.rhs.fixed.map (·.1) == fixedBases.map (·.1)
+
+/-- `light_aggregator.rs: LightAggregator::ipa_fixed_bases` (added by the repair of finding
+`agg:unopened-fixed-commitment`): the fixed bases of the inner key that the accumulator of an inner
+proof has a scalar for, in key order. `names = fixed_base_names("inner_vk", nb_fixed, 0)`;
+the entry `name` is dropped iff `∃ i < nb_fixed, names[i + 1] = name ∧ i` is the column of no
+fixed query (`queried` = the column indices of `cs.fixed_queries()`). -/
+def aggUnopened (nbFixed : Nat) (queried : List Nat) (name : String) : Bool :=
+  let names := fixedBaseNames "inner_vk" nbFixed 0
+  (List.range nbFixed).any (fun i => names[i + 1]? == some name && !(queried.contains i))
+
+/-- See `aggUnopened`: `fixed_bases.iter().filter(|(name, _)| !unopened(name))`. -/
+def ipaFixedBases (nbFixed : Nat) (queried : List Nat) (fixedBases : List (String × G)) : List (String × G) :=
+  fixedBases.filter (fun kb => !aggUnopened nbFixed queried kb.1)
+
+/-- The repaired `bases1 = acc.rhs().bases() ++ self.ipa_fixed_bases(&fixed_bases)` of
+`aggregate_proofs` / `verify`. -/
+def aggIpaBases1Opened (acc : Acc F G) (nbFixed : Nat) (queried : List Nat) (fixedBases : List (String × G)) : List G :=
+  aggIpaBases1 acc (ipaFixedBases nbFixed queried fixedBases)
+
+/-- `accumulator.rs: AssignedAccumulator::scale_by_bit(cond, acc)`: `acc.lhs.scale(cond)` then
+`acc.rhs.scale(cond)` with the bit as a bounded scalar (`1` / `0`): EVERY scalar of both sides —
+variable and fixed-base — multiplied by the bit (the genesis switch of `zk_stdlib/examples/ivc.rs`). -/
+def Acc.scaleByBit [Mul F] [Zero F] [One F] (b : Bool) (a : Acc F G) : Acc F G :=
+  let c : F := if b then 1 else 0
+  { lhs := a.lhs.scale c, rhs := a.rhs.scale c }
 
 end
 end MidnightZK.C20
